@@ -469,6 +469,14 @@ func (req *Request) getDistributedResponse(ctx context.Context) (*Response, erro
 	// Type of request
 	allBackendsRequested := len(req.Backends) == 0
 
+	// if none of the requested backends exists, send an error instead of an empty result
+	if req.OutputFormat != OutputFormatWrappedJSON && len(req.BackendErrors) > 0 && len(req.BackendErrors) == len(req.Backends) {
+		res := &Response{code: 502, failed: req.BackendErrors, request: req}
+		err := &PeerError{msg: req.BackendErrors[req.Backends[0]], kind: ConnectionError}
+
+		return res, err
+	}
+
 	// Cluster mode (don't send this request; send sub-requests, build response)
 	var waitGroup sync.WaitGroup
 	collectedDatasets := make(chan ResultSet, len(req.lmd.nodeAccessor.nodeBackends))
@@ -730,6 +738,11 @@ func (req *Request) mergeDistributedResponse(collectedDatasets chan ResultSet, c
 		code:    200,
 		failed:  make(map[string]string),
 		request: req,
+	}
+
+	// requested backends which do not exist
+	for id, val := range req.BackendErrors {
+		res.failed[id] = val
 	}
 
 	// Merge data
